@@ -214,7 +214,16 @@ def sec_semantics(rec, kind="zncc", shape=(1, 1, 3), axis=2, mhi=2, patches=None
         return cap["res_ori"], crop, cap["res"]
 
     try:
-        paths = explore(run, assumptions=hyps, max_paths=40)
+        try:
+            paths = explore(run, assumptions=hyps, max_paths=40)
+        except C.Unsupported as e:
+            # the engine has no encoding for what the code now does (e.g. an FFT over a grid the stub cannot follow): the installed library decides.
+            # A reproduced displacement error is a violation; otherwise the section stays inconclusive (the exception is passed on).
+            ok, det = rp({})
+            if not ok:
+                raise
+            rec.fact(f"{tag}/not-encodable:{str(e)[:80]}", False, key=f"C04/{kind}/planted-displacement-not-recovered", detail=det, reproduced=True)
+            return
         for pi, p in enumerate(paths):
             h = hyps + [p.condition()]
             if not p.ok:
